@@ -165,7 +165,12 @@ class P:
             segs.append(self.ident())
             if self.at("::"):
                 if self.at("<", 1):
-                    self.i += 2; self.generic_args()
+                    self.i += 2
+                    start = self.i
+                    self.generic_args()
+                    if segs[-1] in ("size_of", "align_of", "array"):
+                        # the type argument decides the value: keep it in the segment name
+                        segs[-1] += "<" + "".join(str(t[1]) for t in self.t[start:self.i - 1]) + ">"
                     if self.at("::"):
                         self.i += 1; continue
                     break
@@ -435,7 +440,7 @@ class P:
             return ("closure", params, body)
         if self.at("while") or self.at("loop") or self.at("for"):
             raise ParseError("loops are outside the translated subset")
-        if t[0] == "id":
+        if t[0] == "id" or (t == ("p", "::") and self.peek(1)[0] == "id"):
             segs = self.path()
             if self.at("!"):           # macro
                 self.i += 1
